@@ -64,9 +64,12 @@ class Builder:
         from connectome import Source, Transform
         from connectome.interface.metaclasses import APIMeta
         from connectome.utils import MultiDict
+        import json as _json
+        # one class per *definition* (not per name: two descriptions may reuse a name with other contents)
         key = d['cls']
-        if key in self.classes:
-            return self.classes[key]
+        ckey = _json.dumps({k: v for k, v in d.items() if k != 'cargs'}, sort_keys=True, default=str)
+        if ckey in self.classes:
+            return self.classes[ckey]
         base = Source if d['k'] == 'source' else Transform
         ns = MultiDict()
         ns['__module__'] = 'cv_generated'
@@ -82,7 +85,7 @@ class Builder:
         if d['k'] == 'source':
             ids = tuple(d['ids'])
             from connectome import meta
-            fname = f'{key}.ids'
+            fname = f'{key}.ids' + ('' if not getattr(self, 'ids_by_value', True) else '[' + ','.join(map(str, ids)) + ']')
             self.world.consts[fname] = ids
             ns['ids'] = meta(self.world.fn(fname, params=[]))
         else:
@@ -97,7 +100,7 @@ class Builder:
         for name, spec in d.get('inverses', {}).items():
             ns[name] = self.decorate(self.fn(spec, key + '.inv', name), dict(spec, inv=True))
         cls = APIMeta(key, (base,), ns)
-        self.classes[key] = cls
+        self.classes[ckey] = cls
         return cls
 
     # ---- layers
